@@ -478,6 +478,31 @@ func (a *vmAn) spParamIndex(m *types.Func) int {
 			}
 		}
 	}
+	// a method that ends by delegating to such a method: the parameter it passes on
+	if n := len(fd.Body.List); n > 0 {
+		var call *ast.CallExpr
+		switch last := fd.Body.List[n-1].(type) {
+		case *ast.ReturnStmt:
+			if len(last.Results) == 1 {
+				call, _ = ast.Unparen(last.Results[0]).(*ast.CallExpr)
+			}
+		case *ast.ExprStmt:
+			call, _ = last.X.(*ast.CallExpr)
+		}
+		if call != nil {
+			if cal := calleeOf(a.info, call); cal != nil && cal != m && core.RecvNamed(cal) == a.vmT {
+				if j := a.spParamIndex(cal); j >= 0 && j < len(call.Args) {
+					if id, ok := call.Args[j].(*ast.Ident); ok {
+						for i := 0; i < sig.Params().Len(); i++ {
+							if a.info.Uses[id] == sig.Params().At(i) {
+								return i
+							}
+						}
+					}
+				}
+			}
+		}
+	}
 	return -1
 }
 
